@@ -71,8 +71,18 @@ func genC04Case(t *rapid.T) *StructCase {
 			PerType: map[string]map[string]string{"Tree": {"Left": rapid.SampledFrom([]string{"required|need", "exist"}).Draw(t, "chainMark"), "Name": "required|deep name"}}}
 	}
 	if rapid.IntRange(0, 2).Draw(t, "mode") > 0 {
-		return genNamedCase(t, namedOpts{roots: []string{"Tree", "Tree", "Top", "Mid"}, marks: marks, msgMode: rapid.SampledFrom([]int{1, 2}).Draw(t, "msgs"),
-			maxDepth: ev.Pick(5, 8), density: 6})
+		c := genNamedCase(t, namedOpts{roots: []string{"Tree", "Tree", "Top", "Mid"}, marks: marks, msgMode: rapid.SampledFrom([]int{1, 2}).Draw(t, "msgs"),
+			maxDepth: ev.Pick(5, 8), density: 6, unscoped: true})
+		if c.Unscoped != nil {
+			// an unscoped rule set belongs to the outermost object only - also when its type recurs further
+			// down (Tree); it is defined for a single top-level struct (and not next to a per-type set for that type)
+			if k := c.Root.K; k == "named" || (k == "ptr" && (c.Root.Elem.K == "named" || c.Root.Elem.K == "ptr")) {
+				delete(c.PerType, rootOf(c))
+			} else {
+				c.Unscoped = nil
+			}
+		}
+		return c
 	}
 	// run-time synthesised nested types, deep and narrow
 	mg := &msgGen{mode: 1}
